@@ -45,6 +45,17 @@ fn main() {
         },
         _ => usage(),
     };
+    // No check may hang: a whole-run wall budget, far above the measured times (quick tiers take seconds, thorough
+    // tiers minutes). Exceeding it is a failure of the machinery (exit 2), never a verdict on the property.
+    if args[1].starts_with('C') {
+        let budget = std::time::Duration::from_secs(if tier == Tier::Quick { 15 * 60 } else { 90 * 60 });
+        let what = args[1].clone();
+        std::thread::spawn(move || {
+            std::thread::sleep(budget);
+            println!("machinery: {what} exceeded its wall budget of {} s and was stopped", budget.as_secs());
+            std::process::exit(2);
+        });
+    }
     let code = match infra::guard(|| match args[1].as_str() {
         "C01" => checks::c01::run(tier),
         "C12" => checks::c12::run(tier),
@@ -94,6 +105,7 @@ fn probe(a: &[String]) {
             let thr = a.get(3).map(|s| infra::thr_parse(s)).unwrap_or(0.0);
             println!("{:?}", infra::guard(|| text2num::replace_numbers_in_text(&a[2], &lang, thr)))
         }
+        "newlits" => println!("{:?}", vocab::new_source_literals(l)),
         "spell" => {
             let n: u64 = a[2].parse().unwrap();
             for (name, v) in spell::axes(l) {
